@@ -49,6 +49,9 @@ type Thread struct {
 	Dead     bool        // crashed: its file-system calls are inert
 	quiescing bool
 	fn       func()
+	Canon    string // creation-order independent name: root index, or parent's name + "." + spawn count
+	hb       Hash   // hash of this thread's events so far, each chained to its happens-before predecessors
+	spawned  int
 	panicVal any
 	panicStk string
 }
@@ -73,7 +76,114 @@ type Exec struct {
 	LogOps   bool
 	opCount  map[string]int
 	Panics   []string
+	// happens-before hashing (state keys for the explorer's visited table)
+	objHash   map[any]Hash
+	universal Hash
+	// Visit, when set, is asked at every scheduling choice beyond the replayed prefix whether the
+	// state (key) was already explored with at most the deviations spent so far; true ends the
+	// execution there (Pruned).
+	Visit               func(key Hash, p, f, c int) bool
+	Pruned              bool
+	CostP, CostF, CostC int
 }
+
+// Hash is a 128-bit hash value.
+type Hash struct{ A, B uint64 }
+
+func mix(h Hash, v uint64) Hash {
+	h.A = (h.A ^ v) * 0x9E3779B97F4A7C15
+	h.A ^= h.A >> 29
+	h.B = (h.B + v + 0x632BE59BD9B4E019) * 0xD6E8FEB86659FD93
+	h.B ^= h.B >> 32
+	return h
+}
+
+func combine(h Hash, others ...Hash) Hash {
+	for _, o := range others {
+		h = mix(mix(h, o.A), o.B)
+	}
+	return h
+}
+
+func hashString(s string) Hash {
+	h := Hash{0xcbf29ce484222325, 0x84222325cbf29ce4}
+	for i := 0; i < len(s); i++ {
+		h = mix(h, uint64(s[i])+1)
+	}
+	return mix(h, uint64(len(s)))
+}
+
+// Touch records that the running thread accesses the shared object obj now (between two
+// scheduling points): the access is ordered after the thread's previous events, after the
+// previous access to obj by any thread (every access counts as a write) and after the last
+// global observation. Two executions in which every thread performs the same accesses with the
+// same predecessors are equivalent (same Mazurkiewicz trace) and reach the same state; the
+// explorer uses the resulting hashes to recognise such states. Every piece of state shared
+// between controlled threads must be touched when it is read or written; touching more than
+// necessary only costs reduction, never soundness.
+func Touch(obj any) {
+	e := E
+	if e == nil || e.aborting || e.cur == nil {
+		return
+	}
+	t := e.cur
+	h := combine(t.hb, e.objHash[obj], e.universal)
+	h = mix(h, 1)
+	t.hb = h
+	e.objHash[obj] = h
+}
+
+// TouchAll records a global observation or action by the running thread (it depends on
+// everything before it, and everything after it depends on it): quiescence, thread exit.
+func TouchAll() {
+	e := E
+	if e == nil || e.aborting || e.cur == nil {
+		return
+	}
+	e.touchAll(e.cur)
+}
+
+func (e *Exec) touchAll(t *Thread) {
+	h := t.hb
+	for _, u := range e.canonical() {
+		h = combine(h, u.hb)
+	}
+	h = mix(h, 2)
+	t.hb = h
+	e.universal = h
+}
+
+func (e *Exec) canonical() []*Thread {
+	ths := append([]*Thread{}, e.threads...)
+	sort.Slice(ths, func(i, j int) bool { return ths[i].Canon < ths[j].Canon })
+	return ths
+}
+
+// stateKey identifies the state at a scheduling step up to happens-before equivalence.
+func (e *Exec) stateKey(from *Thread) Hash {
+	h := Hash{1, 2}
+	for _, t := range e.canonical() {
+		h = combine(h, hashString(t.Canon), t.hb, hashString(t.key))
+		var fl uint64
+		if t.done {
+			fl |= 1
+		}
+		if t.Dead {
+			fl |= 2
+		}
+		if t.quiescing {
+			fl |= 4
+		}
+		h = mix(h, fl)
+	}
+	if from != nil {
+		h = combine(h, hashString("from:"+from.Canon))
+	}
+	return h
+}
+
+// VisitHook is installed as Exec.Visit of every execution started by Run (set by the explorer).
+var VisitHook func(key Hash, p, f, c int) bool
 
 // OnStep, when set, is called at every scheduling step of a controlled execution (by the
 // running thread, before the next thread is chosen): state invariants are evaluated here.
@@ -95,7 +205,8 @@ func Current() *Thread {
 // Run executes body threads under the scheduler, replaying prefix and taking choice 0 beyond.
 // setup runs first, outside the scheduler's control but with E set (so shims register objects).
 func Run(prefix []int, eager bool, maxSteps int, mains []func(), names []string) *Exec {
-	e := &Exec{prefix: prefix, Eager: eager, finished: make(chan struct{}), MaxSteps: maxSteps, opCount: map[string]int{}}
+	e := &Exec{prefix: prefix, Eager: eager, finished: make(chan struct{}), MaxSteps: maxSteps, opCount: map[string]int{}, objHash: map[any]Hash{}}
+	e.Visit = VisitHook
 	E = e
 	for i, fn := range mains {
 		e.newThread(names[i], false, 0, fn)
@@ -138,6 +249,16 @@ func Run(prefix []int, eager bool, maxSteps int, mains []func(), names []string)
 
 func (e *Exec) newThread(name string, daemon bool, prio int, fn func()) *Thread {
 	t := &Thread{ID: len(e.threads), Name: name, Daemon: daemon, Prio: prio, wake: newHandoff(), fn: fn}
+	if p := e.cur; p != nil {
+		// spawned by a controlled thread: the spawn is an event of the parent, the child starts after it
+		p.spawned++
+		t.Canon = fmt.Sprintf("%s.%d", p.Canon, p.spawned)
+		p.hb = mix(combine(p.hb, hashString(t.Canon)), 3)
+		t.hb = mix(p.hb, 4)
+	} else {
+		t.Canon = fmt.Sprintf("r%d", len(e.threads))
+		t.hb = hashString(t.Canon)
+	}
 	e.threads = append(e.threads, t)
 	// the goroutine is created by the spawning thread right away (parked until scheduled), so that
 	// the only happens-before edge into the new thread is the one a real `go` statement has
@@ -172,6 +293,7 @@ func (e *Exec) start(t *Thread) {
 			}
 			t.done = true
 			if !e.aborting {
+				e.touchAll(t) // thread exit is observed by quiescence predicates and deadlock detection
 				_ = e.schedule(t)
 			}
 		}()
@@ -237,6 +359,11 @@ func (e *Exec) schedule(from *Thread) *Thread {
 	choice := 0
 	if len(en) > 1 {
 		idx := len(e.Trace)
+		if e.Visit != nil && idx >= len(e.prefix) && e.Visit(e.stateKey(from), e.CostP, e.CostF, e.CostC) {
+			e.Pruned = true
+			e.finish()
+			return nil
+		}
 		if idx < len(e.prefix) {
 			choice = e.prefix[idx]
 			if choice >= len(en) {
@@ -254,6 +381,9 @@ func (e *Exec) schedule(from *Thread) *Thread {
 			key = "sched after " + from.Name + ":" + from.key
 		}
 		e.Trace = append(e.Trace, PointRec{Key: key, Kind: KindSched, N: len(en), Chosen: choice, Free: false, Alts: alts})
+		if choice != 0 {
+			e.CostP++
+		}
 		_ = curEnabled // every non-default choice counts as one deviation, also at a forced switch: exploring all
 		// orders of the remaining threads for free at every blocking point is exponential in the drain phase
 	}
@@ -337,6 +467,7 @@ func Quiesce(key string) {
 		return true
 	})
 	me.quiescing = false
+	e.touchAll(me)
 }
 
 // Choose asks the explorer for an environment answer of the running thread's operation:
@@ -363,6 +494,17 @@ func Choose(key string, alts []string, kinds []int) int {
 	e.Trace = append(e.Trace, PointRec{Key: name + key, Kind: KindFault, N: len(alts), Chosen: choice, Alts: alts, AltKind: kinds})
 	if e.LogOps && choice != 0 {
 		e.Log = append(e.Log, fmt.Sprintf("%s%s => %s", name, key, alts[choice]))
+	}
+	if choice != 0 {
+		if kinds != nil && kinds[choice] == KindCrash {
+			e.CostC++
+		} else {
+			e.CostF++
+		}
+	}
+	if e.cur != nil {
+		// the environment's answer is part of the thread's history
+		e.cur.hb = mix(combine(e.cur.hb, hashString(alts[choice])), 5)
 	}
 	return choice
 }
